@@ -304,3 +304,72 @@ def list_reader_vc(S, prefix='list-reader'):
     S.install(contracts, loops)
     S.run_paths(prefix, body, active=[c.key for c in contracts])
     S.interp.call_hooks = []
+
+
+# ---------------------------------------------------------------------------
+# VC: ListTrashAction.run_action prints every message of the listing, once,
+# in order, on its own stream (C09: the listing is a bag - two entries with the
+# same path and date are two lines)
+# ---------------------------------------------------------------------------
+RUN_ACTION_LOOP = ('trashcli.list.list_trash_action', 'ListTrashAction.run_action', 0)
+
+
+class ListAllTrashAbstract(Contract):
+    """ListTrash.list_all_trash abstracted to an arbitrary message stream
+    (its own VC: list_reader_vc)"""
+    module = 'trashcli.list.list_trash_action'
+    qualname = 'ListTrash.list_all_trash'
+
+    def apply(self, V, a):
+        return []          # ignored: the loop over it is cut (abstract element)
+
+
+def list_action_vc(S, prefix='list-action'):
+    def element(I, env, seq, i):
+        ctx = I.ctx
+        mod = 'trashcli.list.list_trash_action'
+        text = Sym(ctx.fresh_str('message'), 'str')
+        ctx.assume(z3.Not(z3.Contains(text.t, SV('\n'))))
+        kind = 'Output' if ctx.choose(2, 'message-kind') == 0 else 'Error'
+        ev = I.call(I.lookup(mod, kind), [text], {})
+        ctx.ghost['cur_msg'] = (kind, text)
+        ctx.ghost['print_mark'] = len(ctx.events)
+        return ev
+
+    def at_end(I, env, seq, i, x):
+        ctx = I.ctx
+        kind, text = ctx.ghost['cur_msg']
+        prints = [e for e in ctx.events[ctx.ghost['print_mark']:] if e[0] == 'print']
+        ctx.oblige(prefix + '/every-message-is-printed-exactly-once',
+                   z3.BoolVal(len(prints) == 1))
+        if len(prints) == 1:
+            want = 'stdout' if kind == 'Output' else 'stderr'
+            ctx.oblige(prefix + '/lines-to-stdout-diagnostics-to-stderr-text-unchanged',
+                       z3.And(z3.BoolVal(prints[0][1] == want),
+                              z3str(prints[0][2]) == text.t))
+
+    loops = {RUN_ACTION_LOOP: LoopAnnot(abstract=True, element=element,
+                                        at_iteration_end=at_end)}
+    contracts = [ListAllTrashAbstract()]
+
+    def body(V):
+        ctx = V.ctx
+        c = wire(V, 'trashcli.list.main', 'trashcli.list.main', 'ListCmd.run')
+        cmd = c['self']
+        args_cls = V.I.lookup('trashcli.list.list_trash_action', 'ListTrashArgs')
+        action = cmd.attrs['actions'][args_cls]
+        args = V.I.call(args_cls, [], {'trash_dirs': [],
+                                       'attribute_to_print': 'deletion_date',
+                                       'show_files': False, 'all_users': False})
+        fv = S.resolve('trashcli.list.list_trash_action', 'ListTrashAction.run_action')
+        S.resolve('trashcli.list.list_trash_action', 'ListTrashAction.print_event')
+        try:
+            V.I.call_function(fv, [], {'self': action, 'args': args})
+            ctx.cover(prefix + '/cover-end')
+        except PyExc as pe:
+            ctx.oblige(prefix + '/nothrow', z3.BoolVal(False), kind='nothrow',
+                       info={'exception': pe.value.cls.name})
+
+    S.install(contracts, loops)
+    S.run_paths(prefix, body, active=[c.key for c in contracts])
+    del S.interp.loop_annots[RUN_ACTION_LOOP]
